@@ -85,7 +85,7 @@ def run(chk):
         "documented handler limit: executed chain shorter than the sentinel 63 (+1); longer chains are finding F20",
     ]
     sc = ["R", "N", "NN"]
-    instance(chk, "all", "all", 1, 5 if thorough else 4, sc + ["A", "NA"], kinds=("route", "notfound", "notallowed"))
+    instance(chk, "all", "all", 1, 5 if thorough else 4, sc + ["A", "NA"], kinds=("route", "notfound", "notallowed", "na-default"))
     instance(chk, "uniform", "uniform", 1 if thorough else 40, 63, sc)
     if thorough:
         instance(chk, "odd", "odd", 2, 63, ["R", "NN"], base="N")
